@@ -449,6 +449,22 @@ def dec_outcome(v, distinct=False):
 
 
 def do_predict(model, kind, teams):
+    """A match-making query as the application makes it.  The application OWNS what it gets
+    back: like any caller it sorts, pops or extends the returned list in place for display -
+    here, after the numbers have been copied out, the returned list is reversed and grown (a
+    library that hands out a list it keeps for itself will meet it again)."""
+    res = _do_predict(model, kind, teams)
+    out = [list(x) for x in res] if kind == "rank" else (list(res) if isinstance(res, list) else res)
+    if isinstance(res, list):
+        try:
+            res.reverse()
+            res.append(res[0] if res else 0.0)
+        except Exception:
+            pass
+    return out
+
+
+def _do_predict(model, kind, teams):
     if isinstance(teams, list) and len(teams) % 2 == 1:
         # every other query names its argument (the spelling of the repository's own tests)
         if kind == "win":
@@ -456,13 +472,13 @@ def do_predict(model, kind, teams):
         if kind == "draw":
             return model.predict_draw(teams=teams)
         if kind == "rank":
-            return [list(x) for x in model.predict_rank(teams=teams)]
+            return model.predict_rank(teams=teams)
     if kind == "win":
         return model.predict_win(teams)
     if kind == "draw":
         return model.predict_draw(teams)
     if kind == "rank":
-        return [list(x) for x in model.predict_rank(teams)]
+        return model.predict_rank(teams)
     raise ValueError(kind)
 
 
@@ -539,6 +555,7 @@ ODD_NAMES = [
     "Zoe\u0308", "A\u030angstro\u0308m", "\u212b", "\u1100\u1161\u11a8", "\ufb01nal", "  padded  ", "O'Brien; DROP TABLE", "x" * 300,
     "\u00e9clair", "\U0001f3b2 dice", "tab\tname", "0", "None", "\u0130stanbul", "stra\u00dfe", "\u01c4",
     "lone\ud800surrogate", "nul\x00byte", "\u200bzero width", "\u202eright-to-left", "   ", "\n", "",
+    "{GM}Ace", "{}", "{0}", "struct{int x;}", "100% legit", "%s of %d", "%(name)s", "$HOME ${x}", "{", "}}", "\\N{DASH}", "a\\b",
 ]
 
 
